@@ -92,9 +92,10 @@ class Tr:
                     raise Untranslatable("`is` with something other than None")
                 return "(%s %s)" % ("py_is_none" if isinstance(op, ast.Is) else "py_is_not_none", self.e(l))
             if isinstance(op, (ast.In, ast.NotIn)):
-                if not (isinstance(l, ast.Constant) and isinstance(l.value, str) and len(l.value) == 1):
-                    raise Untranslatable("`in` with a needle that is not a one-character constant")
-                t = "(py_contains_char %s %s)" % (self.e(l), self.e(r))
+                if isinstance(l, ast.Constant) and isinstance(l.value, str) and len(l.value) == 1:
+                    t = "(py_contains_char %s %s)" % (self.e(l), self.e(r))
+                else:
+                    t = "(py_in %s %s)" % (self.e(l), self.e(r))      # list membership (or one-character needle)
                 return t if isinstance(op, ast.In) else "(py_not %s)" % t
             table = {ast.Eq: "py_eq", ast.NotEq: "py_ne", ast.Gt: "py_gt", ast.Lt: "py_lt", ast.GtE: "py_ge", ast.LtE: "py_le"}
             for k, f in table.items():
